@@ -81,7 +81,18 @@ def parse(doc):
 # values: shape x hostile string, plus the twin
 # ---------------------------------------------------------------------------
 SHAPES = ('dict-key', 'dict-leaf', 'list-leaf', 'nested-key', 'obj-field', 'obj-in-list', 'long-leaf', 'key-and-leaf',
-          'dict-int-key')
+          'dict-int-key', 'class-name')
+
+_NAMED = {}
+
+
+def named_class(name):
+  """A symbolic class whose NAME is the given string (class and field names are user data too, e.g. '<lambda>')."""
+  if name not in _NAMED:
+    cls = type(name, (pg.Object,), {'__module__': 'hostile', 'auto_register': False})
+    _NAMED[name] = pg.members([('x', pg.typing.Any(default=None))])(cls)
+  return _NAMED[name]
+
 
 
 def build(shape, h, twin):
@@ -105,6 +116,9 @@ def build(shape, h, twin):
     return pg.Dict({s: s, 'z' + s: pg.Dict({s + 'k': s})})
   if shape == 'dict-int-key':
     return pg.Dict({1: s, 2: pg.Dict({3: s})})
+  if shape == 'class-name':
+    c = named_class(s)
+    return pg.Dict(a=c(x=1), b=[c(x=c(x=2))])
   raise ValueError(shape)
 
 
